@@ -139,23 +139,35 @@ def run(facts, tier):
 
     # ---------------- T15.3 tokens
     t3 = Rule("T15.3", "token table of the operator parser: each of the 25 operator tokens maps to the operator the manual names, `,` only where a comma is allowed, nothing else is an operator", floor=25)
-    fn = facts.hir_find(r"^jaq_core::load::parse::Parser::<.*>::op::\{closure#0\}$|^jaq_core::load::parse::Parser::<.*>::op$", "jaq_core")
-    tok_match = None
-    for f in fn:
+    # the table is looked for in every function of the parser (it may be split over the operator parser and helpers of it):
+    # all arms `"<token>" => <binary operator>` of matches in jaq_core::load::parse
+    seen = {}
+    n_tables = 0
+    for f in facts.hir("jaq_core"):
+        if not f["def"].startswith("jaq_core::load::parse::") or f.get("test"):
+            continue
         for mm in find(f["body"], lambda n: n.get("k") == "Match" and n.get("src") == "Normal"):
-            strs = [a for a in mm["arms"] if a["pat"]["k"] == "Lit" and "str" in a["pat"]["lit"]]
-            if len(strs) >= 20:
-                tok_match = mm
-    if tok_match is None:
-        t3.missing_anchor("Parser::op token match")
-    else:
-        seen = {}
-        for a in tok_match["arms"]:
-            p = a["pat"]
-            if p["k"] == "Lit" and "str" in p["lit"]:
-                tok = p["lit"]["str"]
+            hit = False
+            for a in mm["arms"]:
+                lits_ = [p_ for p_ in find(a["pat"], lambda n: n.get("k") == "Lit" and "str" in n["lit"])]
+                if len(lits_) != 1:
+                    continue
                 v = expr_value(a["body"])
-                seen[tok] = (v, a)
+                if v is None or "BinaryOp" not in str(v.get("ctor", "")):
+                    # the operator may be wrapped (e.g. `Some(op)` / a tuple with the pattern of `as`)
+                    inner = [expr_value(x) for x in find(a["body"], lambda n: n.get("k") == "Call")]
+                    inner = [x for x in inner if x is not None and "BinaryOp" in str(x.get("ctor", ""))]
+                    if not inner:
+                        inner = [x for x in (expr_value(x) for x in find(a["body"], lambda n: n.get("k") == "Path")) if x is not None and "BinaryOp" in str(x.get("ctor", ""))]
+                    v = inner[0] if len({str(x.get("ctor")) for x in inner}) == 1 else None
+                if v is None:
+                    continue
+                hit = True
+                seen.setdefault(lits_[0]["lit"]["str"], (v, a))
+            n_tables += hit
+    if len(seen) < 20:
+        t3.missing_anchor(f"token table of the operator parser ({len(seen)} token arms found)")
+    else:
         for tok, want in S.items():
             v, a = seen.get(tok, (None, None))
             ok = v is not None and same(v, want)
